@@ -450,6 +450,13 @@ class Index(IndexBase):
                 labels = labels.astype(dtype_extract) #type: ignore
                 labels.flags.writeable = False #type: ignore
 
+        elif dtype is not None and not labels.__class__ is np.ndarray:
+            # convert before the mapping is built: the labels held, their uniqueness and their positions are those of the converted values
+            if not hasattr(labels, '__len__'):
+                labels = tuple(labels)
+            if len(labels): #type: ignore
+                labels, _ = iterable_to_array_1d(labels, dtype=dtype_extract)
+
         self._name = None if name is NAME_DEFAULT else name_filter(name)
 
         if self._map is None: # if _map not shared from another Index
